@@ -81,8 +81,24 @@ def _feed(sx, sm, ref, fr, tag):
     return out
 
 
+class _Bus:
+    def __init__(self):
+        self.sent = []
+
+    def send(self, msg):
+        self.sent.append(msg)
+
+
 def run_hist(sx, cfg, env):
-    sm = _mk()
+    if cfg.get("active"):
+        import odxtools.isotp_state_machine as iso
+        sm = iso.IsoTpActiveDecoder(_Bus(), [RX], [0x7E0], padding_size=cfg.get("padding", 0))
+    else:
+        sm = _mk()
+    return _run_hist(sx, cfg, sm)
+
+
+def _run_hist(sx, cfg, sm):
     ref = isotp_ref.RefReassembler([RX])
     for i, n in enumerate(cfg["lens"]):
         fr = sx.bytes(f"f{i}", n)
@@ -171,6 +187,11 @@ def configs(tier, seed):
         rec = [(m, L) for m in (None, 0, 1, 6, 9, 14) for L in list(range(0, 24)) + [62, 63, 64]]
     for lens in hist:
         out.append({"id": "hist/" + "-".join(map(str, lens)), "harness": "hist", "lens": list(lens)})
+    for lens in ([(8,), (0,), (1,), (8, 8), (2, 8), (8, 2, 8)] if tier == "quick" else
+                 [(a,) for a in range(9)] + list(itertools.product([0, 1, 2, 8], repeat=2)) +
+                 list(itertools.product([2, 8], repeat=3))):
+        out.append({"id": "active-hist/" + "-".join(map(str, lens)), "harness": "hist",
+                    "lens": list(lens), "active": True, "padding": 8})
     for m in ms:
         for fl in flens:
             out.append({"id": f"step/m{m}/f{fl}", "harness": "step", "m": m, "flen": fl})
